@@ -57,6 +57,8 @@ type scenario struct {
 	SlowOpen bool `json:"slow_open"`
 	// BurstRelease: parked trials with identical outcomes are completed all at once instead of one by one
 	BurstRelease bool `json:"burst_release,omitempty"`
+	// ReHalfOpen: HalfOpen() is called on the breaker while it is half-open with trials in flight
+	ReHalfOpen bool `json:"re_half_open,omitempty"`
 	// T0: the virtual clock's reading when the scenario starts
 	T0 int64 `json:"t0,omitempty"`
 }
@@ -237,6 +239,7 @@ type runOut struct {
 	slowOpenHit                  bool
 	hugeDelay                    bool
 	burstCompleted               bool
+	reHalfOpen                   bool
 	paths                        map[string]bool
 }
 
@@ -484,6 +487,14 @@ func run(sc scenario) (out runOut) {
 		if v := int(w.maxIn.Load()); v > hcap && m.State() == cbmodel.HalfOpen {
 			return fail("half-open-over-admission", "round %d: %d trial executions were in progress at once, trial capacity is %d", round, v, hcap)
 		}
+		// ---- a redundant manual HalfOpen() while trials are in flight changes nothing: no fresh set of permits ----
+		if sc.ReHalfOpen && m.State() == cbmodel.HalfOpen && toModel(w.cb.State()) == cbmodel.HalfOpen {
+			w.cb.HalfOpen()
+			out.reHalfOpen = true
+			if free, ok := m.FreePermits(); ok && free == 0 && w.cb.TryAcquirePermit() {
+				return fail("half-open-over-admission", "round %d: HalfOpen() on the half-open breaker whose %d trial permits were all taken handed out another permit", round, hcap)
+			}
+		}
 		// ---- or complete them all at once, when their outcomes are identical (any order then gives the same history) ----
 		if sc.BurstRelease {
 			var pend []*execState
@@ -620,7 +631,7 @@ func genScenario(t *rapid.T) scenario {
 	if rapid.IntRange(0, 7).Draw(t, "hugeDelay") == 0 {
 		c.Delay = rapid.SampledFrom([]int64{math.MaxInt64, math.MaxInt64 - 1, 1 << 62}).Draw(t, "delayHuge")
 	}
-	sc := scenario{CB: c, RaceB: rapid.Bool().Draw(t, "raceB"), Rounds: rapid.IntRange(1, 3).Draw(t, "rounds"), SlowOpen: rapid.Bool().Draw(t, "slowOpen"), BurstRelease: rapid.Bool().Draw(t, "burstRelease"), T0: rapid.SampledFrom([]int64{0, 1, 1700000000000000000}).Draw(t, "t0")}
+	sc := scenario{CB: c, RaceB: rapid.Bool().Draw(t, "raceB"), Rounds: rapid.IntRange(1, 3).Draw(t, "rounds"), SlowOpen: rapid.Bool().Draw(t, "slowOpen"), BurstRelease: rapid.Bool().Draw(t, "burstRelease"), ReHalfOpen: rapid.Bool().Draw(t, "reHalfOpen"), T0: rapid.SampledFrom([]int64{0, 1, 1700000000000000000}).Draw(t, "t0")}
 	maxG := 16
 	if harness.Thorough() {
 		maxG = 32
@@ -680,7 +691,7 @@ func TestBreakerConcurrent(t *testing.T) {
 			harness.Violation(t, prop, test, o.sig, sc, "%s: %s", sc.CB, o.violation)
 		}
 		nt := o.racedOpen || o.racedTrials
-		classes := []string{fmt.Sprintf("raced-open=%v", o.racedOpen), fmt.Sprintf("raced-trials=%v", o.racedTrials), fmt.Sprintf("slow-open-listener-hit=%v", o.slowOpenHit), fmt.Sprintf("kind=%d", sc.CB.Kind), fmt.Sprintf("huge-delay=%v", o.hugeDelay), fmt.Sprintf("burst-completed=%v", o.burstCompleted)}
+		classes := []string{fmt.Sprintf("raced-open=%v", o.racedOpen), fmt.Sprintf("raced-trials=%v", o.racedTrials), fmt.Sprintf("slow-open-listener-hit=%v", o.slowOpenHit), fmt.Sprintf("kind=%d", sc.CB.Kind), fmt.Sprintf("huge-delay=%v", o.hugeDelay), fmt.Sprintf("burst-completed=%v", o.burstCompleted), fmt.Sprintf("redundant-halfopen=%v", o.reHalfOpen)}
 		for p := range o.paths {
 			classes = append(classes, "trial-end="+p)
 		}
